@@ -303,3 +303,39 @@ pub fn info(sender: &str) -> MessageInfo {
         funds: vec![],
     }
 }
+
+
+// ---------------------------------------------------------------------------------------------
+// A querier that routes smart and raw wasm queries to the contract under test, so that the client-side helpers
+// the repository ships in packages/ (Cw20Contract, Cw4Contract, ...) can be used as additional observers.
+
+pub struct Router<'a> {
+    pub w: &'a World,
+    /// the contract's `query` entry point applied to the raw JSON message
+    pub smart: fn(Deps<'_, Empty>, Env, &cosmwasm_std::Binary) -> StdResult<cosmwasm_std::Binary>,
+}
+
+impl<'a> cosmwasm_std::Querier for Router<'a> {
+    fn raw_query(&self, bin_request: &[u8]) -> cosmwasm_std::QuerierResult {
+        use cosmwasm_std::{ContractResult, QueryRequest, SystemError, SystemResult, WasmQuery};
+        let req: QueryRequest<Empty> = match cosmwasm_std::from_json(bin_request) {
+            Ok(r) => r,
+            Err(e) => return SystemResult::Err(SystemError::InvalidRequest { error: e.to_string(), request: bin_request.into() }),
+        };
+        match req {
+            QueryRequest::Wasm(WasmQuery::Smart { msg, .. }) => {
+                let smart = self.smart;
+                let (deps, env) = (self.w.deps(), self.w.env());
+                match catch_unwind(AssertUnwindSafe(move || smart(deps, env, &msg))) {
+                    Ok(Ok(b)) => SystemResult::Ok(ContractResult::Ok(b)),
+                    Ok(Err(e)) => SystemResult::Ok(ContractResult::Err(e.to_string())),
+                    Err(_) => SystemResult::Ok(ContractResult::Err("query aborted".into())),
+                }
+            }
+            QueryRequest::Wasm(WasmQuery::Raw { key, .. }) => {
+                SystemResult::Ok(ContractResult::Ok(cosmwasm_std::Binary::from(self.w.store.data.get(key.as_slice()).cloned().unwrap_or_default())))
+            }
+            _ => SystemResult::Err(SystemError::UnsupportedRequest { kind: "only wasm smart/raw queries are routed".into() }),
+        }
+    }
+}
